@@ -140,6 +140,32 @@ fn kfold_case(n: usize, k: usize, shuffle: bool, mode: RngMode) {
         None
     };
     check_folds(site, n, k, &folds, perm.as_deref());
+    // positional consumption of the fold iterator (unshuffled: every split call yields the same folds):
+    // nth(j), skip(j).next() and step_by(2) must deliver the very folds that next() delivers
+    if !shuffle && n <= 24 {
+        let j = mc::choose(k + 1);
+        let pos = mc::guard(|| {
+            let a = KFold { n_splits: k, shuffle: false }.split(&x).nth(j);
+            let b = KFold { n_splits: k, shuffle: false }.split(&x).skip(j).next();
+            let c: Vec<_> = KFold { n_splits: k, shuffle: false }.split(&x).step_by(2).collect();
+            let d = KFold { n_splits: k, shuffle: false }.split(&x).count();
+            (a, b, c, d)
+        });
+        match pos {
+            Ok((a, b, c, d)) => {
+                let want = folds.get(j).cloned();
+                if a != want || b != want {
+                    mc::violation("kfold.plain:positional-consumption", format!("n={} k={}: split().nth({}) = {:?}, skip({}).next() = {:?}, but the {}-th fold delivered by next() is {:?}", n, k, j, a.map(|f| f.1), j, b.map(|f| f.1), j, want.map(|f| f.1)));
+                }
+                let want_c: Vec<_> = folds.iter().step_by(2).cloned().collect();
+                if c != want_c || d != k {
+                    mc::violation("kfold.plain:positional-consumption", format!("n={} k={}: step_by(2) yields {} folds (expected {}), count() = {} (expected {})", n, k, c.len(), want_c.len(), d, k));
+                }
+                mc::count("kfold_positional_consumption");
+            }
+            Err(p) => mc::violation("kfold.plain:positional-consumption:panic", format!("n={} k={}: {}", n, k, p.brief())),
+        }
+    }
     if n % k != 0 {
         mc::count("uneven_folds");
     }
@@ -293,6 +319,35 @@ fn cv_case(n: usize, k: usize, shuffle: bool, mode: RngMode) {
             }
         }
     }
+    // ---- cross_validate with an estimator whose fit FAILS on one fold: the failure must surface
+    // (Err), never an Ok with fewer than k scores
+    if !shuffle && n <= 12 {
+        let fail_at = mc::choose(k);
+        let calls = RefCell::new(0usize);
+        let r = mc::guard(|| {
+            cross_validate(
+                |_tx: &DenseMatrix<f64>, _ty: &Vec<f64>, _p: NoParams| {
+                    let mut c = calls.borrow_mut();
+                    *c += 1;
+                    if *c == fail_at + 1 {
+                        Err(Failed::fit("instrumented failure"))
+                    } else {
+                        Ok::<Spy, Failed>(Spy { id: *c })
+                    }
+                },
+                &x,
+                &y,
+                NoParams,
+                KFold { n_splits: k, shuffle: false },
+                |_yt: &Vec<f64>, _yp: &Vec<f64>| 1.0,
+            )
+        });
+        match r {
+            Ok(Ok(res)) => mc::violation("cross_validate:fit-error-swallowed", format!("n={} k={}: the estimator failed on fold {} but cross_validate returned Ok with {} test scores", n, k, fail_at, res.test_score.len())),
+            Ok(Err(_)) => mc::count("cv_failing_fold_reported"),
+            Err(p) => mc::violation("cross_validate:fit-error:panic", format!("n={} k={}: {}", n, k, p.brief())),
+        }
+    }
     // ---- cross_val_predict
     let log2 = RefCell::new(Log::default());
     own_rng(mode);
@@ -422,9 +477,10 @@ impl Harness for C16 {
             budget_s: if t { 1500 } else { 40 },
             case_deadline_ms: 20_000,
             floors: vec![
-                ("builder_chains", 5),("uneven_folds", 100), ("non_identity_permutations", 100), ("split_empty_train", 10), ("large_fold_counts", 50), ("call_sequences_shuffled_then_plain", 1000)],
+                ("builder_chains", 5),("uneven_folds", 100), ("non_identity_permutations", 100), ("split_empty_train", 10), ("large_fold_counts", 50), ("call_sequences_shuffled_then_plain", 1000), ("kfold_positional_consumption", 1000), ("cv_failing_fold_reported", 500)],
             bounds: json!({
                 "builders": mc_sc::builders::BOUNDS,
+                "positional_and_failures": "unshuffled KFold n<=24: nth(j), skip(j).next(), step_by(2), count() against the folds next() delivers, every j<=k; cross_validate with an estimator failing on fold f (every f), n<=12: the failure must be returned",
                 "call_sequences": "n<=5 (6): {KFold, cross-validation, train/test split} with shuffling (every schedule) followed on the same thread by an unshuffled KFold / cross-validation of the same size, every (k1,k2)",
                 "shuffled_large_folds": "n in {32,33,48,64}: KFold (every k), split (every test size) and cross_val (one k) under every schedule with at most one non-identity Fisher-Yates step (two for n=32 in thorough)",
                 "kfold_unshuffled": "every 2<=k<=n<=64; plus n in {255,256,257,300,513} with k in {2,3,7,64,127..129,200,255..258,300,511..513,n}",
